@@ -11,13 +11,19 @@
 (*   byte      a natural number 0..255                                     *)
 (*   name      a sequence of bytes: the token AS WRITTEN in the manifest   *)
 (*             text (escaped form), e.g. <<97,92,48,52,48,98>> = a\040b    *)
-(*   block     a natural number id; its size is id % 100, its content is   *)
-(*             the byte sequence <<id,0>>, <<id,1>>, ... (distinct ids have *)
-(*             distinct content; every id with size 0 is THE empty block)  *)
+(*   block     a natural number = one LOCATOR:  10000 * h + c  where       *)
+(*             c = Strip(b) stands for hash+size (its size is c % 100, its *)
+(*             content the byte sequence <<c,0>>, <<c,1>>, ...; distinct c *)
+(*             have distinct content; every c with size 0 is THE empty     *)
+(*             block) and h = HintClass(b) stands for the hints after the  *)
+(*             size (0 none, 1 "+A<sig>@<ts>", 2 "+R<cluster>-<sig>@<ts>",  *)
+(*             3 "+Z+A<sig>@<ts>+K<cluster>", as rendered by the drivers)  *)
 (*   token     [pos, len, name]                                            *)
 (*   stream    [name, blocks : Seq(block), toks : Seq(token)]              *)
 (*   manifest  Seq(stream)                                                 *)
-(*   segment   <<block id, offset in block, length>>, length > 0           *)
+(*   segment   <<block, offset in block, length>>, length > 0              *)
+(*   byte      of a file: <<Strip(block), offset>> (hints do not matter to *)
+(*             WHICH data is meant)                                        *)
 (*                                                                         *)
 (* Sentences of the document and where they are:                           *)
 (*  "By logically concatenating the blocks in the order that they appear,  *)
@@ -110,6 +116,8 @@ RawOK(t) == t # <<>> /\ \A i \in DOMAIN t : t[i] > 32 /\ t[i] # 127     \* no wh
 (* Streams                                                                 *)
 (***************************************************************************)
 Size(b) == b % 100
+Strip(b) == b % 10000            \* the locator reduced to hash+size ("sized-digest" of the document)
+HintClass(b) == b \div 10000
 
 RECURSIVE SumSizes(_, _)
 SumSizes(blocks, n) == IF n = 0 THEN 0 ELSE SumSizes(blocks, n - 1) + Size(blocks[n])
@@ -151,7 +159,7 @@ SegsOf(m, p) == LET es == Entries(m)
 Flatten(segs) ==
     LET F[i \in 0 .. Len(segs)] ==
             IF i = 0 THEN <<>>
-            ELSE F[i-1] \o [k \in 1 .. segs[i][3] |-> <<segs[i][1], segs[i][2] + k - 1>>]
+            ELSE F[i-1] \o [k \in 1 .. segs[i][3] |-> <<Strip(segs[i][1]), segs[i][2] + k - 1>>]
     IN F[Len(segs)]
 Bytes(m, p) == Flatten(SegsOf(m, p))
 FileSize(m, p) == Len(Bytes(m, p))
@@ -161,9 +169,20 @@ FileSize(m, p) == Len(Bytes(m, p))
 NoConflicts(m) == \A p, q \in Paths(m) : ~IsPrefix(p \o <<SL>>, q)
 
 (***************************************************************************)
-(* Locator reduction for the portable data hash: every locator reduced to  *)
-(* hash+size.  In the abstract syntax a block id IS hash+size; hints are a *)
-(* per-scenario rendering option, so the reduction is "render without      *)
-(* hints" and the PDH clause is PDH(text) = MD5+length(render(m, nohints)).*)
+(* Locators and hints                                                      *)
+(*  "locator ::= sized-digest hint*": what follows hash+size is a hint.    *)
+(*  Portable data hash: "every locator reduced to hash+size" = the text of *)
+(*  StripManifest(m); the MD5 itself is the concretiser's (crypto/md5), so *)
+(*  the PDH clause reads  PDH(text of m) = MD5+length(text of StripManifest(m)). *)
+(*  "Each block identifier in the manifest has an added signature which is *)
+(*  used to confirm permission to read the block": a manifest derived from *)
+(*  another one (Extract, normalisation) can only be READ BACK if the      *)
+(*  blocks it lists still carry hints they had in the source, hence        *)
+(*  HintsPreserved (the empty block holds no data and is exempt).          *)
 (***************************************************************************)
+BlocksOf(m) == LET F[i \in 0 .. Len(m)] == IF i = 0 THEN <<>> ELSE F[i-1] \o m[i].blocks
+               IN F[Len(m)]
+StripManifest(m) == [i \in DOMAIN m |-> [m[i] EXCEPT !.blocks = [j \in DOMAIN m[i].blocks |-> Strip(m[i].blocks[j])]]]
+StrippedBlocks(m) == LET bs == BlocksOf(m) IN [j \in DOMAIN bs |-> Strip(bs[j])]
+HintsPreserved(src, out) == \A b \in Range(BlocksOf(out)) : Size(b) = 0 \/ b \in Range(BlocksOf(src))
 =============================================================================
